@@ -518,3 +518,48 @@ class AddAttribute(FunctionContract):
 
 
 CONTRACTS.append(AddAttribute())
+
+
+class ReplaceValues(FunctionContract):
+    """replace_values(**new_values): every keyword is assigned exactly once, in the order given, through the checked item assignment
+    (`__setitem__`, which refuses unknown names); nothing else is assigned."""
+    qualname = 'fsic.core.containers.VectorContainer.replace_values'
+    props = ('C09',)
+
+    def scenarios(self):
+        return ['two-keywords', 'none', 'second-raises']
+
+    def setup(self, interp, scenario):
+        e = {'scenario': scenario, 'sets': []}
+        obj = make(interp, e)
+        kw = {} if scenario == 'none' else {'A': object(), 'nope' if scenario == 'second-raises' else 'B': object()}
+        e['kw'] = kw
+
+        def setitem(interp_, o, args, kwargs, node):
+            e['sets'].append((args[0], args[1]))
+            if args[0] == 'nope':
+                from pyvc.interp import PyRaise
+                from pyvc.values import SExc
+                exc = SExc(KeyError, origin='setitem')
+                e['exc'] = exc
+                raise PyRaise(exc)
+            return None
+        interp.registry.set_calls({'fsic.core.containers.VectorContainer.__setitem__': setitem})
+        e['inputs'] = {}
+        return Call([], dict(kw), self_obj=obj, entry=e)
+
+    def post(self, interp, scenario, call, out):
+        ctx = interp.ctx
+        e = call.entry
+        want = list(e['kw'].items())
+        if out.kind == 'raise':
+            ctx.prove(z3.BoolVal(scenario == 'second-raises' and out.exc is e.get('exc')), 'only_a_refusal_of_the_item_assignment_propagates', 'raises')
+        else:
+            ctx.prove(z3.BoolVal(scenario != 'second-raises'), 'a_refused_item_assignment_is_not_swallowed', 'raises')
+        got = e['sets']
+        ctx.prove(z3.BoolVal(len(got) == len(want) and all(g[0] == w[0] and g[1] is w[1] for g, w in zip(got, want))),
+                  'each_keyword_assigned_exactly_once_in_order_through_the_checked_item_assignment', 'ensures', note=str([g[0] for g in got]))
+        ctx.prove(e['obj'].ndstore.data == e['data0'], 'nothing_is_assigned_by_replace_values_itself', 'frame')
+
+
+CONTRACTS.append(ReplaceValues())
